@@ -15,7 +15,12 @@ LEVEL = "other"
 LEVEL_TEXT = ("Deductive: LRUCache / SimpleCache / HybridCache methods (non-shared mode) against an abstract view with a "
               "representation invariant, VCs from the real method bodies. Bounded: every cache class (incl. DiskCache, "
               "shared mode, reopening) checked transition by transition against the policy models over all operation "
-              "sequences up to a depth. 'other': part proved, part bounded; multi-process interleavings not decided.")
+              "sequences up to a depth. The several-processes clause is reached through what can be stated on one "
+              "object: the pickled copy of a shared cache (what a worker process receives) is driven alternately with "
+              "the original against one model, it must hold the *same* lock (holding it through one handle excludes the "
+              "other), and every modification of the state the handles share must happen while the lock is held "
+              "(recording containers). 'other': part proved, part bounded; genuine multi-process interleavings are "
+              "not explored.")
 LEVEL_NOTE = ("Proof assumes sequential execution, `with lock` = no-op for nullcontext (non-shared), floats as reals for "
               "HybridCache scores. Bounded: 3-key alphabet, max_size 1..3, depth 5 (quick) / 6-7 (thorough) exhaustive + "
               "seeded random depth 30. Genuinely concurrent multi-process histories are N/A for this family.")
